@@ -23,8 +23,11 @@ NENVWF = len(ENV_MALFORMATIONS)
 ROLE_SPELLINGS = {"root": ["root"], "key_mgr": ["key_mgr"],
                   "pkg_mgr": ["pkg_mgr", "channeler", "root.json", "Root", "key_mgr ", "ключ",
                               # names that are PARTS of the two metadata types, or contain them: a role is its whole name
-                              "key", "mgr", "_", "oot", "roo", "r", "key_mg", "ey_mgr", "key_mgr2", "xroot", "root_key_mgr"]}
+                              "key", "mgr", "_", "oot", "roo", "r", "key_mg", "ey_mgr", "key_mgr2", "xroot", "root_key_mgr",
+                              # names with a canonically equivalent twin (composed / decomposed); the twin is what the trusted side delegates
+                              "caf\u00e9", "cafe\u0301", "\u212bngstr\u00f6m", "\u00c5ngstro\u0308m"]}
 STDOUT_ENCODINGS = ["utf-8"] * 10 + ["ascii", "ascii", "ascii", "latin-1", "latin-1", "cp1252", "cp1252", "cp437", "cp437"] + lib.BROKEN_STDOUTS
+NFC_TWINS = {"caf\u00e9": "cafe\u0301", "cafe\u0301": "caf\u00e9", "\u212bngstr\u00f6m": "\u00c5ngstro\u0308m", "\u00c5ngstro\u0308m": "\u212bngstr\u00f6m"}
 BAD_ROLE_ARGS = [5, None, b"root", ["root"], ("key_mgr",), 1.5]
 BAD_GPG_ARGS = ["yes", None, 2, [], "True", -1]
 SIGNED_MALFORMATIONS = [i + 1 for i, m in enumerate(metadata.MALFORMATIONS) if m[1] == "signed"]
@@ -48,6 +51,9 @@ def concretise(case, r, seed):
             dels[o] = metadata.rule(list(allkeys), 1)
     if r.random() < 0.25:
         dels.update({k: v for k, v in metadata.unusual_roles(r, allkeys[0]).items() if k != role})
+    if role in NFC_TWINS:
+        # the trusted metadata delegates the OTHER canonically-equivalent spelling of this name to every key: a different name, a different role
+        dels[NFC_TWINS[role]] = metadata.rule(list(allkeys), 1)
     pad = r.random() < 0.004       # scale: now and then well over a thousand further (well-formed) delegations on either side
     if pad:
         for i in range(r.choice([1021, 1100, 1500])):
